@@ -2,7 +2,7 @@
    naive closure), decides emitted_fun - for every unit, no validity needed.  So the main theorem can be
    read with live := closure_live ds, a function of the declarations alone. *)
 From Coq Require Import List Bool Arith ZArith Lia.
-From Chibicc Require Import Model.Linkage Proofs.LinkageProofs Proofs.LinkageComplete Spec.LinkSpec Model.Emit Proofs.EmitParse Proofs.EmitLive Proofs.EmitProofs.
+From Chibicc Require Import Model.Linkage Proofs.LinkageProofs Proofs.LinkageComplete Spec.LinkSpec Model.Emit Proofs.EmitAsm Proofs.EmitParse Proofs.EmitScan Proofs.EmitLive Proofs.EmitProofs Proofs.EmitAnon.
 Import ListNotations.
 
 Lemma iter_n_succ {A} (f : A -> A) k : forall x, iter_n k f (f x) = f (iter_n k f x).
@@ -126,26 +126,39 @@ End Closure.
 
 (* ---------- the headline theorem with the specification as a function of the declarations alone ---------- *)
 Theorem emit_symtab_computable ds o :
-  valid ds = true -> kb_extern_init ds = false -> kb_inline_first ds = false ->
+  valid ds = true -> kb_extern_init_static ds = false ->
   forall n, symtab_of (emit o (parse_flags ds)) n = to_result (spec_entry (closure_live ds) ds o n).
-Proof. intros H1 H2 H3 n. apply emit_symtab_correct; try assumption. apply closure_live_ok. Qed.
+Proof. intros H1 H2 n. apply emit_symtab_correct; try assumption. apply closure_live_ok. Qed.
 
 (* as a table: the lines nm prints for the identifiers of the unit *)
 Definition nm_table (text : list directive) (names : list nat) : list (nat * entry) :=
   flat_map (fun n => match symtab_of text n with Present e => [(n, e)] | _ => [] end) names.
 
 Theorem emit_table_correct ds o :
-  valid ds = true -> kb_extern_init ds = false -> kb_inline_first ds = false ->
+  valid ds = true -> kb_extern_init_static ds = false ->
   nm_table (emit o (parse_flags ds)) (declared_names ds) = spec_symtab (closure_live ds) ds o
   /\ forall n, ~ In n (declared_names ds) -> symtab_of (emit o (parse_flags ds)) n = Absent.
 Proof.
-  intros H1 H2 H3. split.
-  - unfold nm_table, spec_symtab. apply flat_map_ext. intros n. rewrite (emit_symtab_computable ds o H1 H2 H3 n).
+  intros H1 H2. split.
+  - unfold nm_table, spec_symtab. apply flat_map_ext. intros n. rewrite (emit_symtab_computable ds o H1 H2 n).
     destruct (spec_entry (closure_live ds) ds o n); reflexivity.
-  - intros n Hn. rewrite (emit_symtab_computable ds o H1 H2 H3 n). unfold spec_entry.
+  - intros n Hn. rewrite (emit_symtab_computable ds o H1 H2 n). unfold spec_entry.
     assert (Hf : funseq n ds = []).
     { destruct (funseq n ds) eqn:E; [reflexivity|]. exfalso. apply Hn. unfold declared_names. apply nodup_In. apply funseq_in. rewrite E. discriminate. }
     assert (Ho : objseq n ds = []).
     { destruct (objseq n ds) eqn:E; [reflexivity|]. exfalso. apply Hn. unfold declared_names. apply nodup_In. apply objseq_in. rewrite E. discriminate. }
     rewrite Hf, Ho. reflexivity.
 Qed.
+
+(* ---------- the anonymous objects, with the owner-function rule (62ebd1d) ---------- *)
+Theorem anon_placements_correct ds o live : valid ds = true -> live_ok ds live ->
+  anon_placements (emit o (parse_flags ds)) = spec_anon live ds.
+Proof.
+  intros Hv Hl. rewrite anon_placements_model, <- (anon_entries_spec live ds 0). f_equal. apply filter_ext_in. intros x Hx.
+  destruct (unit_anons_shape ds 0 x Hx) as (k & tl & hi & sz & al & arr & ow & -> & Ho).
+  unfold owner_live, placed. cbn [anon_obj_of ob_owner]. destruct ow as [g|]; [|reflexivity].
+  specialize (Ho g eq_refl). destruct (funseq g ds) as [|d1 s'] eqn:E; [contradiction|].
+  destruct (prog_fun_obj ds Hv live Hl g d1 s' E) as (fo & Ef & _). rewrite find_fun_filter, Ef. reflexivity.
+Qed.
+Theorem anon_placements_computable ds o : valid ds = true -> anon_placements (emit o (parse_flags ds)) = spec_anon (closure_live ds) ds.
+Proof. intros Hv. apply anon_placements_correct; [exact Hv|apply closure_live_ok]. Qed.
